@@ -13,6 +13,18 @@ CLAIMED = {
    text="The real access decision (Accessor + AccessReq::allow, driven exactly as the Interaction Model drives it, over real Fabrics/ACL tables built through the public API and through persisted blobs) is compared with a 60-line reference written from the statement on hundreds of thousands (thorough: 5e7) of generated configurations biased to near misses; every reference rule must be the deciding rule >= 1000 times or the run is inconclusive. Held = no disagreement.",
    note="Reference algorithm trusted. Not judged (counted as notes): ProxyView-implies-View (rs-matter documents ProxyView as granting nothing), CAT version 0, entries without/with foreign fabric label, declarations without a privilege bit.",
    tech="runtime monitoring: differential oracle (reference access algorithm) over generated ACL configurations", ref="DESIGN.md §3 C05"),
+ "C03": dict(cat="exploration",
+   text="Authentic datagrams for CASE, PASE and group sessions over all header shapes and payload lengths are built with the session keys; every single-bit flip (<=128 B, sampled above), truncation, extension, re-keying, reflection, cross-session transplant, source/destination field change and group/unicast confusion is delivered alone to a real receiver node before the authentic original (control). Oracle: a mutant is never handed to an exchange and leaves the session snapshot (counters, window, exchanges, keys) unchanged; the original is delivered exactly once with identical header fields and payload; 1e6 codec-level encode/decode round trips with 5e6 mutants.",
+   note="Cryptographic forgery is not searched for. Trusted: snapshot hook, harness-side encoder over the public PacketHdr API. MSG_EXT/PRIVACY/SECEX flags only reached by bit flips; TCP not covered.",
+   tech="runtime monitoring: mutation of authentic datagrams with snapshot-diff and delivery-log oracle", ref="DESIGN.md §3 C03"),
+ "C09": dict(cat="exploration",
+   text="Two real nodes exchange uniquely tagged application messages over CASE, PASE and unsecured sessions (1-4 concurrent exchanges, ping-pong and one-way streams) under seeded adversaries (per-datagram loss/dup/delay up to 50 %, drop all acks, drop first n copies, deliver after give-up, duplicate after ack, stale carriers). An offline checker over the recorded {call, return, app-receive, wire} history judges: at most once and in order, Ok only if a copy reached the peer, return within the retransmission budget, error on exhaustion, Ok if a transmission and an acknowledgement got through, back-off lower bound, duplicates of R-flagged messages re-acknowledged.",
+   note="Virtual time makes the back-off rule exact. Not judged: 6 transmissions instead of 5; late duplicates on unsecured sessions taken for a counter restart (mandated by C04). Datagrams decoded with the known session keys.",
+   tech="runtime monitoring: offline history checker (MRP rules O1-O7) over application and wire events under network adversaries", ref="DESIGN.md §3 C09"),
+ "C13": dict(cat="exploration",
+   text="End-to-end: a device with a version-valued data model and 1-4 subscribers (public subscribe client + report sink answering Success / Failure / nothing) run scenarios of 100-350 virtual seconds with changes and events injected at every await point of (multi-chunk) priming and of other subscribers' reports, >16 pending changes, failed and retried reports, session loss and device restarts with persisted subscriptions. Offline oracle: S1 completeness at the bound (latest version of every subscribed attribute changed after its priming read, every subscribed event), S2 retry with same content, S3 min interval (first transmissions from the wire tap), S4 max interval, S5 failing subscription ends within max interval of its last success.",
+   note="Liveness is decided only as bounded progress after faults stop (part of the claim). Head-of-line blocking of the single reporter task is observed as subscriptions the device expires (noted). Table-level monitor not built (would need wrappers over crate-private subscription table API).",
+   tech="runtime monitoring: offline checker over device-side change log and subscriber-side report log, bounded-progress restatement of liveness", ref="DESIGN.md §3 C13"),
  "C04": dict(cat="exploration",
    text="Every boolean produced by the real receive-window and group-sender-table code is compared, step by step, with a reference written from the statement over exhaustively enumerated short histories around a window edge plus millions of biased random histories (duplicates, re-ordering, jumps of any size, values near 0 / 2^31 / 2^32-1, roll-over, evictions). Held = the oracle was silent on all of them.",
    note="Reference model (60 lines) and LRU eviction rule are trusted; runs explore histories up to length 300, not all histories.",
